@@ -44,6 +44,7 @@ type Entry struct {
 	Exit      int  // Probe: exit status (0 = success)
 	IgnoreErr bool // Probe: command-level ignore_error
 	DeferFail bool // DeferCmd: the deferred command exits 1 after its D line
+	BadTmpl   bool // DeferCmd: the text has a template action that fails when rendered (index of an empty list): the entry renders to nothing and runs nothing, and must not disturb the other deferred entries
 	Ref       *Ref // Call / DeferCall
 	Loop      []string
 	LoopVar   bool // render Loop as for: {var: LV<k>} over a task variable holding the items (split on spaces, or on ',' with split:)
@@ -540,6 +541,9 @@ func (p *Prog) renderTask(b *strings.Builder, t *Task) {
 			cmd := fmt.Sprintf(`printf 'D %s %%s x=%%s code=%%s\n' "{{.P}}" "%s" "{{.EXIT_CODE}}"`, cid, x)
 			if e.DeferFail {
 				cmd += "; exit 1"
+			}
+			if e.BadTmpl {
+				cmd += " {{index .NOSUCHLIST 0}}"
 			}
 			fmt.Fprintf(b, "      - defer: %s\n", yq(cmd))
 		case DeferCall:
